@@ -9,6 +9,7 @@ import (
 	"fmt"
 	"go/token"
 	"go/types"
+	"sort"
 	"strings"
 
 	"golang.org/x/tools/go/ssa"
@@ -96,8 +97,60 @@ func checkC02(c *Ctx, r *Report) {
 	r.Rule("R02d", "resolveEnv reports success only with a resolver's result under err == nil; all other returns carry a non-nil error", 2)
 	resolveEnvRule(c, r, "R02d")
 
+	computedNameRule(c, r)
 	r.Rule("R02e", "lookup order: resolveRef looks first in cfgRoot(owning config), then in env[len(env)-1] shrinking from the end; resolveEnv walks resolvers from len-1 downwards; resolvers are asked only after the tree lookup returned nothing and no critical error", 5)
 	lookupOrder(c, r)
+}
+
+// computedNameRule (R02f): every evaluator that builds a reference from a name computed at read time
+// (nested ${${k}.x}, and the left side of the :, :+ and :? operators) splits the name the same way:
+// with the separator captured in the expansion object when the string was parsed, and the index /
+// escape settings of the reading call. Sibling agreement on E7 normal forms.
+func computedNameRule(c *Ctx, r *Report) {
+	r.Rule("R02f", "all evaluators that build a reference from a computed name split it identically: parsePath(name, <separator captured at parse time in the expansion object>, reader's maxIdx / enableNumKeys / escapePath)", 4)
+	newRef := c.Func("", "newReference")
+	forms := map[string][]string{}
+	for _, tn := range []string{"expansionSingle", "expansionDefault", "expansionAlt", "expansionErr"} {
+		fn := c.TryMethod("", tn, "eval")
+		if fn == nil {
+			continue
+		}
+		for _, ci := range CallsTo(fn, newRef, false) {
+			call := ci.(*ssa.Call)
+			b := newNF(c)
+			b.Role(fn.Params[0], "E")
+			for _, p := range fn.Params[1:] {
+				if isNamed(derefType(p.Type()), modPath, "options") {
+					b.Role(p, "O")
+				}
+			}
+			// the computed name: result #0 of an eval call on a component of the expansion
+			Instrs(fn, false, func(in ssa.Instruction) {
+				if ex, ok := in.(*ssa.Extract); ok && ex.Index == 0 {
+					if cl, ok := ex.Tuple.(*ssa.Call); ok && cl.Call.IsInvoke() && cl.Call.Method.Name() == "eval" {
+						b.Role(ex, "name")
+					}
+				}
+			})
+			form := b.Of(call.Call.Args[0]).String()
+			form = strings.ReplaceAll(form, ".expansion.", ".") // embedded struct of the operator expansions
+			forms[form] = append(forms[form], c.FnName(fn))
+			r.Analysed["computed-name evaluators"]++
+			sepOK := strings.Contains(form, "($name, deref($E).pathSep,") && !strings.Contains(form, "deref($O).pathSep")
+			r.Check(sepOK, "R02f", c.FnName(fn), "separator of computed name", c.Pos(call.Pos()), form,
+				"the computed name is not split with the separator captured when the string was parsed (a read without PathSep, e.g. through a child config, looks the name up as one literal key): "+form)
+		}
+	}
+	if len(forms) > 1 {
+		var ds []string
+		for f, fns := range forms {
+			ds = append(ds, strings.Join(fns, ",")+": "+f)
+		}
+		sort.Strings(ds)
+		r.Bad("R02f", "evaluators", "sibling agreement", "-", "the evaluators split a computed name differently: "+strings.Join(ds, " ;; "))
+	} else if len(forms) == 1 {
+		r.OK("R02f", "evaluators", "sibling agreement", "-", "one form for all evaluators")
+	}
 }
 
 func lookupOrder(c *Ctx, r *Report) {
